@@ -270,6 +270,11 @@ def front_end_twins(res, ctx, names):
     except Exception as x:
         res.violation(f'c17-front-end-raises-{core.exc_name(x)}', f'request under a reduced table: {x!r}', {'file': files['v2']})
         return
+    if ctx.shard == 0:
+        # the command line on a pipe and on pseudo terminals prints the same twin lines (nothing cut to a window width)
+        from vlib import cli
+        if not cli.terminal_agrees(res, 'c17', files['v2'], f'{len(expect)} twin pairs', columns=(80, 100, 200)):
+            return
     for kind, data in files.items():
         for table in (None, dict(ev.bundled_codes()), 'used-object'):
             for method in ('traces', 'formatted_traces'):
@@ -332,6 +337,11 @@ def run(ctx):
         res.exhaustive = True
     else:
         names = sorted(ev.new_parser().handlers)
+    import os
+    if os.environ.get('VERIF_FLAVOUR'):
+        # an interpreter-flavour re-run of shard 0: it repeats shard 0's share of the decoders, so its count of table names
+        # must not be added to the total the entered functions are compared with
+        res.counters.pop('names_in_code_table', None)
     dynamic_part(res, ctx, names)
     if ctx.shard == 0:
         front_end_twins(res, ctx, names)
